@@ -181,3 +181,32 @@ Definition readme_gaps : list (string * string) := [
   ("Dirfile", "GetSarray"); ("Dirfile", "Sarrays"); ("Dirfile", "MSarrays"); ("Dirfile", "PutSarray"); ("Fragment", "ReWrite")].
 Definition readme_stale : list (string * string) := [
   ("Dirfile", "FormatFilename"); ("Dirfile", "MAlterSpec"); ("Dirfile", "MCarrays"); ("Dirfile", "NFormats")].
+
+(* ---- entry getters: README.cxx: "These methods will return the corresponding member of the gd_entry_t object";
+   member names from the gd_entry(3) man page.  Applies to Entry and to every child class re-implementing the getter. *)
+Definition getter_members : list (string * string) := [
+  ("Name", "field"); ("Type", "field_type"); ("FragmentIndex", "fragment_index"); ("Flags", "flags");
+  ("SamplesPerFrame", "u.raw.spf"); ("RawType", "u.raw.data_type"); ("NFields", "u.lincom.n_fields");
+  ("FirstBit", "u.bit.bitnum"); ("NumBits", "u.bit.numbits"); ("Shift", "u.phase.shift");
+  ("ConstType", "u.scalar.const_type"); ("ArrayLen", "u.scalar.array_len"); ("Table", "u.linterp.table");
+  ("WindOp", "u.window.windop"); ("Threshold", "u.window.threshold"); ("CountVal", "u.mplex.count_val");
+  ("Period", "u.mplex.period"); ("PolyOrd", "u.polynom.poly_ord"); ("Dividend", "u.recip.dividend")
+].
+
+Definition getter_row_ok (r : row) : bool :=
+  match rparams r with
+  | [] => match find (fun p => String.eqb (fst p) (rmeth r)) getter_members with
+          | Some (_, m) => match getter_path (rbody r) with
+                           | Some m' => String.eqb m m'
+                           | None => false
+                           end
+          | None => true
+          end
+  | _ => true
+  end.
+Definition is_entry_class (c : string) : bool :=
+  match index 0 "Entry" c with Some _ => true | None => false end.
+Definition getters_bad (hdr : list row) : list (string * string) :=
+  map (fun r => (rcls r, rmeth r)) (filter (fun r => is_entry_class (rcls r) && negb (getter_row_ok r)) hdr).
+Definition getters_checked (hdr : list row) : nat :=
+  length (filter (fun r => is_entry_class (rcls r) && match rparams r with [] => existsb (fun p => String.eqb (fst p) (rmeth r)) getter_members | _ => false end) hdr).
